@@ -867,7 +867,7 @@ def run(tier, seed, **opts):
         "auto-loads of the same FASTA, schedules A x i, B x j, A, B over all i, j at file-operation granularity, with a third "
         "process (a reader that is not preempted) after A has completed while B is still suspended"
         + ("" if quick else " and while both are suspended") + "; "
-        "(d) the same indexing runs hit by an exception (KeyboardInterrupt through a real SIGINT / OSError ENOSPC / SystemExit) at a "
+        "(d) the same indexing runs hit by an exception (KeyboardInterrupt, through a real SIGINT when run in the main thread / OSError ENOSPC / SystemExit) at a "
         "file operation or at a write() call on the text handle of a cache file (small input: every such point x 3 kinds; big "
         "input: every file operation" + (" from the first open-for-writing on, cache states stale and .fai missing only" if quick else "") + ", first and last 3 writes of "
         "each cache file and an even spread of the others, kinds rotated), followed by a fresh "
